@@ -22,13 +22,16 @@ LEVEL_TEXT = ("TLC checks on bounded instances of the handle/object specificatio
               "storage (early destruction shows as values); random 300-step executions over 6 slots / 4 objects, multi-threaded copy/drop "
               "bursts and thousands of rounds in which 2-4 threads leave a spin barrier and acquire through one borrowed reference to an "
               "object whose count is exactly 1 (raw-pointer constructor, copy of one shared handle, refInc; quarantined pointee storage; also "
-              "under TSan) are validated by TLC trace specifications")
+              "under TSan; with the lender releasing first also the race for the LAST release from a count of exactly k) are validated by "
+              "TLC trace specifications; a macro-action model (RefCountBig) jumps the number of explicit references / live handles between "
+              "0, 1, 2, 127/128, 255/256/257, 65535/65536/65537 (thorough: one staircase through 2^31 and 2^32, about 10^10 refInc/refDec "
+              "calls) and the real counter is compared after every jump")
 LEVEL_NOTE = ("bounded: exhaustive parts use 2 objects x 2-4 slots, <= 1-2 outstanding explicit references, one member handle per Derived object "
               "(chains of length 2, self loops and 2-cycles; longer chains only in the recorded random executions with 4 objects); the concurrent "
               "model is checked for 3 threads x <= 3-4 operations, the real concurrent executions are sampled (not schedule-controlled) and judged "
               "at quiescent points and by stamp order only; what a moved-from handle holds is left open (release / retain / swap) as long as the "
               "books balance, the generation model uses the outcome TLC identified from a probe execution; two empty handles comparing equal is "
-              "not constrained; operator< is only required to be unordered exactly on equal handles and to agree with the order const-Base "
+              "not constrained beyond == and != contradicting each other; operator< is only required never to hold both ways, to be unordered exactly on equal handles and to agree with the order const-Base "
               "handles to the same objects give; handle-vs-raw-pointer comparisons do not compile and are not part of the API; trusted: TLC, the driver's own "
               "bookkeeping of slots and its destructor log, g++/libstdc++, ASan/UBSan/TSan")
 TECHNIQUE = ("TLA+ ADT specification + TLC invariants/action properties; TLC-generated transition cover and histories replayed on the real objects; "
@@ -38,7 +41,8 @@ API = "IntrusivePtr"
 
 MUTATORS = {"New", "CreatorDrop", "RefInc", "RefDec", "DefaultCtor", "RawCtor", "RawAssign", "CopyCtor", "ConvCopyCtor", "MoveCtor",
             "ConvMoveCtor", "CopyAssign", "ConvCopyAssign", "MoveAssign", "ConvMoveAssign", "Dtor"}
-MEMBER_ACTIONS = {"SetMember", "ClearMember", "CopyCtorFromMember", "CopyAssignFromMember", "MoveAssignFromMember"}
+MEMBER_ACTIONS = {"SetMember", "ClearMember", "CopyCtorFromMember", "MoveCtorFromMember", "CopyAssignFromMember", "MoveAssignFromMember",
+                  "UnlinkNext", "UnlinkNextMove"}
 TRACE_META = {"slots": "BBBDDC", "objs": "BDBD", "maxexp": 3, "members": True}
 CONVERSIONS = ["ConvCopyCtor", "ConvMoveCtor", "ConvCopyAssign", "ConvMoveAssign", "RawCtor", "RawAssign"]   # ways a handle gets a converted pointer
 KINDS = ["mc", "ma", "sm", "cmc", "cma"]
@@ -67,7 +71,7 @@ PROBE = [
 # ---------------------------------------------------------------------------
 # generation: TLC's state graph of RefCountGen, exported edge by edge
 # ---------------------------------------------------------------------------
-def build_graph_from_edges(chk, policy, tag, cfg="RefCountGen.cfg", layout="single"):
+def build_graph_from_edges(chk, policy, tag, cfg="RefCountGen.cfg", layout="single", module="RefCountGen"):
     d = os.path.join(WORK, "graphs")
     os.makedirs(d, exist_ok=True)
     path = os.path.join(d, "%s-%d.ndjson" % (tag, os.getpid()))
@@ -75,10 +79,10 @@ def build_graph_from_edges(chk, policy, tag, cfg="RefCountGen.cfg", layout="sing
         os.remove(path)
     env = {"RC_EDGES": path, "RC_LAYOUT": layout}
     for k in KINDS:
-        env["RC_" + k.upper()] = policy[k]
-    r = tla.run_tlc(os.path.join(SPEC, "RefCountGen.tla"), os.path.join(SPEC, cfg), workers=4, timeout=900, env=env, tag=tag)
+        env["RC_" + k.upper()] = (policy or {}).get(k, "release")
+    r = tla.run_tlc(os.path.join(SPEC, module + ".tla"), os.path.join(SPEC, cfg), workers=4, timeout=900, env=env, tag=tag)
     if not r.ok:
-        raise InfraError("generation model RefCountGen failed: violated=%s error=%s\n%s" % (r.violated, r.error, r.out[-2000:]))
+        raise InfraError("generation model " + module + " failed: violated=%s error=%s\n%s" % (r.violated, r.error, r.out[-2000:]))
     ag = adt.AbsGraph()
 
     def idx(a):
@@ -440,8 +444,8 @@ def rand_actions(rnd, n, meta, policy=None):
                 name = conv(s, t) + name
             if members and rnd.random() < 0.25:
                 name = rnd.choice(sorted(MEMBER_ACTIONS))
-                acts.append({"a": name, "arg": {"o": max(o, 1), "t": t} if name == "SetMember" else {"o": max(o, 1)} if name == "ClearMember"
-                             else {"s": s, "t": t}})
+                acts.append({"a": name, "arg": {"o": max(o, 1), "t": t} if name == "SetMember"
+                             else {"o": max(o, 1)} if name in ("ClearMember", "UnlinkNext", "UnlinkNextMove") else {"s": s, "t": t}})
                 continue
             arg = {"o": max(o, 1)} if name in ("New", "CreatorDrop", "RefInc", "RefDec") else \
                   {"s": s} if name in ("DefaultCtor", "Dtor", "Bool", "Arrow") else \
@@ -466,7 +470,9 @@ def rand_actions(rnd, n, meta, policy=None):
         usedB = [s for s in used if slots[s - 1] == "B"]
         freeB = [s for s in free if slots[s - 1] == "B"]
         if members and owners and used: cands += [("SetMember", 3), ("ClearMember", 0.7)]
-        if members and via and freeB: cands += [("CopyCtorFromMember", 1)]
+        if members and via and freeB: cands += [("CopyCtorFromMember", 1), ("MoveCtorFromMember", 1)]
+        unl = [o for o in owners if mem[o] and mem[mem[o]] is not None]
+        if members and unl: cands += [("UnlinkNext", 1.5), ("UnlinkNextMove", 1.5)]
         if members and via and usedB: cands += [("CopyAssignFromMember", 2.5), ("MoveAssignFromMember", 2.5)]
         tot = sum(w for _, w in cands)
         x = rnd.random() * tot
@@ -534,9 +540,23 @@ def rand_actions(rnd, n, meta, policy=None):
         elif name == "ClearMember":
             o = rnd.choice(owners); mem[o] = 0
             a = {"a": name, "arg": {"o": o}}
-        elif name == "CopyCtorFromMember":
+        elif name in ("CopyCtorFromMember", "MoveCtorFromMember"):
             s = rnd.choice(freeB); t = rnd.choice(via); h[s] = mem[h[t]]
+            if name == "MoveCtorFromMember" and pol.get("mc", "release") == "release":
+                mem[h[t]] = 0
             a = {"a": name, "arg": {"s": s, "t": t}}
+        elif name in ("UnlinkNext", "UnlinkNextMove"):
+            o = rnd.choice(unl); z = mem[o]
+            if name == "UnlinkNext":
+                mem[o] = mem[z]
+            elif z == o:
+                if pol.get("sm", "release") == "release": mem[o] = 0
+            else:
+                out = pol.get("ma", "release")
+                mem[o] = mem[z]
+                if out == "release": mem[z] = 0
+                elif out == "swap": mem[z] = z
+            a = {"a": name, "arg": {"o": o}}
         elif name in ("CopyAssignFromMember", "MoveAssignFromMember"):
             walk = [t for t in via if t in usedB]
             if walk and rnd.random() < 0.7:
@@ -581,10 +601,10 @@ def burst_events(obs):
 
 def rounds_events(obs):
     """One AcquireRounds observation -> events for RefCountConcTrace (format conversion only)."""
-    ev = [{"e": "RoundsStart", "threads": obs["threads"], "start": obs["start"], "how": obs["how"]}]
+    ev = [{"e": "RoundsStart", "threads": obs["threads"], "start": obs["start"], "how": obs["how"], "lenderFirst": obs["lenderFirst"]}]
     for o in obs["outcomes"]:
         ev.append(dict(o, e="Round"))
-    ev.append({"e": "RoundsEnd", "rounds": obs["rounds"], "overlapping": obs["overlapping"]})
+    ev.append({"e": "RoundsEnd", "rounds": obs["rounds"], "overlapping": obs["overlapping"], "overlappingRel": obs["overlappingRel"]})
     return ev
 
 
@@ -630,7 +650,7 @@ def validate_bursts(chk, execs, configs, tag, san, stderr=""):
         field = e if e in ("race", "crash", "malformed") else "trace-rejected@" + str(e)
         cfgc = configs[rj["exec"]]
         if cfgc.get("action") == "AcquireRounds":
-            mm = {"action": "ConcurrentAcquire", "field": field,
+            mm = {"action": "ConcurrentRelease" if cfgc.get("lenderFirst") else "ConcurrentAcquire", "field": field,
                   "cls": "start=%s,k=%s,how=%s,san=%s" % (cfgc.get("start"), cfgc.get("threads"), cfgc.get("how"), san or "none")}
         else:
             mm = {"action": "ConcurrentBurst", "cls": "san=%s" % (san or "none"), "field": field}
@@ -670,18 +690,24 @@ def acquire_configs(rnd, quick, tsan=False):
         combos += [(3, 1, "raw"), (4, 1, "copy"), (3, 1, "refinc"), (2, 2, "refinc"), (4, 3, "raw")]
     for k, start, how in combos:
         cfgs.append({"action": "AcquireRounds", "threads": k, "start": start, "how": how, "rounds": R, "maxms": 4000 if quick else 8000})
+    # the lender releases first: the k threads' simultaneous releases start from a count of exactly k and contain the last one
+    for k, start, how in ([(2, 1, "raw")] if tsan else [(2, 1, "raw"), (2, 1, "refinc"), (3, 1, "mixed"), (4, 2, "copy")]):
+        cfgs.append({"action": "AcquireRounds", "threads": k, "start": start, "how": how, "rounds": R, "maxms": 4000 if quick else 8000,
+                     "lenderFirst": 1})
     return cfgs
 
 
 def acquire_guard(chk, execs, minimum):
     """Vacuity guard: enough rounds in which the count was exactly 1 and at least two threads' acquisitions overlapped."""
-    n = rounds = 0
+    n = rounds = nrel = 0
     for ev in execs:
         if ev and ev[0].get("e") == "RoundsStart" and ev[-1].get("e") == "RoundsEnd":
             rounds += ev[-1]["rounds"]
             if ev[0]["start"] == 1 and ev[0]["threads"] >= 2:
                 n += ev[-1]["overlapping"]
-    return n, rounds
+            if ev[0].get("lenderFirst"):
+                nrel += ev[-1]["overlappingRel"]
+    return n, rounds, nrel
 
 
 # ---------------------------------------------------------------------------
@@ -705,6 +731,8 @@ def run(chk, replay=None):
              "conservation, alive iff referenced, no dangling handle, dies at last release, destroyed exactly once"),
             ("RefCountMC", "RefCountMC_members.cfg" if quick else "RefCountMC_members_thorough.cfg", 12,
              "the same with member handles (objects owning a handle, cascading destruction, assignment from a member of the target)"),
+            ("RefCountBig", "RefCountBig.cfg", 4,
+             "counter boundaries (127/128 ... 2^32+1 explicit references, up to 65537 handles): alive iff referenced, jumps are exact"),
             ("RefCountConc", "RefCountConc.cfg" if quick else "RefCountConc_thorough.cfg", 8,
              "atomic inc/dec: conservation and single destruction under all interleavings"),
             ("RefCountConc", "RefCountConcBorrow.cfg", 4,
@@ -838,7 +866,13 @@ def run(chk, replay=None):
                 # the handle assigned from lives inside the object whose last reference the assignment releases
                 ("CopyAssignFromMember", WALK_CLASS), ("MoveAssignFromMember", WALK_CLASS),
                 ("CopyAssignFromMember", "src=member-of-dst-target,next=null,last-ref,kills"),
-                ("SetMember", "val=self,old=null")]
+                ("SetMember", "val=self,old=null"),
+                # x.next = x.next->next: destination and source are member handles, the successor loses its last reference
+                ("UnlinkNext", "next=obj,nextnext=null,last-ref,kills"), ("UnlinkNext", "next=obj,nextnext=back,last-ref,kills"),
+                ("UnlinkNextMove", "next=obj,nextnext=back,last-ref,kills"), ("UnlinkNext", "next=self,nextnext=back"),
+                ("MoveCtorFromMember", "src=member-of-other,next=obj,dst=new"),
+                # two empty handles; operator< on every kind of pair
+                ("Compare", "types=same,both-empty"), ("Compare", "types=Base/Derived,both-empty")]
         missing = [c for c in need if c not in classes]
         if missing and not storm:
             raise InfraError("vacuity guard: input classes never generated: %s" % missing)
@@ -851,6 +885,56 @@ def run(chk, replay=None):
                                  "same-object compare: %s" % (adjusted, thin))
         chk.cov["input_classes_covered"] = len(classes)
         chk.cov["cascades_generated"] = sum(1 for a, c in classes if c and c.endswith(",kills"))
+
+    # 2b. numeric boundaries of the counter: macro actions jump the number of explicit references / live handles between
+    #     0, 1, 2, 127/128, 255/256/257, 65535/65536/65537 (thorough: one staircase through 2^31 and 2^32 as well)
+    ag, r = build_graph_from_edges(chk, None, "c08-big", cfg="RefCountBigGen.cfg", module="RefCountBig")
+    chk.add_model("RefCountBig/RefCountBigGen.cfg", r, "counter boundaries, generation instance: %d abstract states, %d abstract transitions"
+                  % (len(ag.states), ag.nedges))
+    bcover = adt.edge_cover(ag)
+    bh = bcover + adt.random_walks(ag, 200 if quick else 2000, 12, chk.seed)
+    chk.count_actions(bh)
+    bclasses = set((st["a"], st.get("cls")) for h in bcover for st in h[-1:])
+    bneed = [("ExplicitTo", "from=255,to=256"), ("ExplicitTo", "from=65535,to=65536"), ("ExplicitTo", "from=65536,to=65537"),
+             ("ExplicitTo", "from=65536,to=0"), ("ExplicitTo", "from=65537,to=0,kills"), ("ExplicitTo", "from=128,to=127"),
+             ("HandlesTo", "from=255,to=256"), ("HandlesTo", "from=65535,to=65536"), ("HandlesTo", "from=65537,to=0,kills"),
+             ("CreatorDrop", ",kills")]
+    bmissing = [c for c in bneed if c not in bclasses]
+    if bmissing:
+        raise InfraError("vacuity guard: counter-boundary classes never generated: %s" % bmissing)
+    nb, wallb, _ = replay_parallel(chk, exe, bh, "c08-big", API, isolate=100, meta={"big": True}, replay_info={"spec": "RefCountBig"})
+    chk.log("counter boundaries: %d histories replayed (%d mismatching) in %.1fs" % (len(bh), nb, wallb))
+    chk.cov["counter_boundaries"] = {"abstract_states": len(ag.states), "abstract_transitions": ag.nedges, "histories": len(bh),
+                                     "classes": len(bclasses)}
+    chk.cov["distinct_nontrivial"] += adtcheck._nontrivial_distinct(bh, {"ExplicitTo", "HandlesTo", "CreatorDrop"})
+    chk.add_sample({"kind": "history", "object": "counter boundaries (macro actions)", "steps": bcover[len(bcover) // 2]})
+    if not quick:
+        agb, rb = build_graph_from_edges(chk, None, "c08-big2", cfg="RefCountBigGen_big.cfg", module="RefCountBig")
+        chk.add_model("RefCountBig/RefCountBigGen_big.cfg", rb, "counter boundaries incl. 2^31 and 2^32: %d abstract states" % len(agb.states))
+        up = [(32767, 65535), (32768, 0), (32768, 1), (65535, 65535), (65536, 0), (65536, 1)]
+        want = [("New", None)] + [("ExplicitTo", t) for t in up] + [("ExplicitTo", t) for t in reversed(up[:-1])] + \
+               [("CreatorDrop", None), ("ExplicitTo", (0, 0))]
+        cur, stair = agb.init[0], []
+        for a, t in want:           # path selection in TLC's graph: one staircase up through both boundaries and down again
+            nxt = [(st, d) for st, d in agb.edges.get(cur, []) if st["a"] == a and (t is None or (st["arg"]["q"], st["arg"]["r"]) == t)]
+            if len(nxt) != 1:
+                raise InfraError("staircase: no unique edge %s %s" % (a, t))
+            stair.append(nxt[0][0])
+            cur = nxt[0][1]
+        res, rc, stderr, wallc = adt.run_driver(exe_plain, [stair], "c08-big-stair", isolate=1, meta={"big": True}, timeout=2400,
+                                                extra_args=["--timeout-ms", "2000000"])
+        mms = adt.compare([stair], res, rc, stderr)
+        for mm in mms:
+            if mm["kind"] in ("missing", "timeout"):
+                raise InfraError("staircase through 2^31 / 2^32 did not finish: %s" % mm)
+            what = "%s: step %d %s(%s): %s expected %s observed %s" % (API, mm["step"], mm.get("action"), json.dumps(mm.get("arg")), mm["field"],
+                                                                       json.dumps(mm.get("expected"))[:200], json.dumps(mm.get("observed"))[:200])
+            chk.violation(sig_of(API, mm), what, {"kind": "history", "property": chk.pid, "tag": "c08-big-stair", "sig_prefix": API,
+                                                  "meta": {"big": True, "quarantine": True, "long": True}, "history": stair,
+                                                  "mismatch": {k: v for k, v in mm.items() if k != "stderr"}})
+        chk.cov["evaluations"] += 1
+        chk.cov["counter_boundaries"]["staircase_steps"] = len(stair)
+        chk.log("counter boundaries: staircase 0 -> 2^31-1 .. 2^32+1 -> 0 (%d steps, %d mismatching) in %.1fs" % (len(stair), len(mms), wallc))
 
     # 3. code -> spec: random long executions over the larger universe
     nexec = 24 if quick else 240
@@ -894,13 +978,15 @@ def run(chk, replay=None):
     # concurrent acquisition through one borrowed reference, count exactly 1 (and 2, 3) when k threads acquire together
     acfgs = acquire_configs(rnd, quick)
     aexecs, astderr, wall = run_bursts(chk, exe_c, acfgs, "c08-acquire", "")
-    ov, nrounds = acquire_guard(chk, aexecs, 0)
-    chk.log("concurrent acquisition rounds: %d rounds in %d series, %d with count 1 and overlapping acquisitions, %.1fs" % (nrounds, len(acfgs), ov, wall))
+    ov, nrounds, ovrel = acquire_guard(chk, aexecs, 0)
+    chk.log("concurrent acquisition rounds: %d rounds in %d series, %d with count 1 and overlapping acquisitions, %d with overlapping last "
+            "releases from count k, %.1fs" % (nrounds, len(acfgs), ov, ovrel, wall))
     acc, rej = validate_bursts(chk, aexecs, acfgs, "c08-acquire", "", astderr)
     need_ov = 3000 if quick else 10000
-    if not rej and ov < need_ov:
-        raise InfraError("vacuity guard: only %d rounds with start count 1 and >= 2 overlapping acquisitions (need %d; machine too loaded?)" % (ov, need_ov))
-    chk.cov["acquisition_rounds"] = {"series": len(acfgs), "rounds": nrounds, "count1_overlapping": ov}
+    if not rej and (ov < need_ov or ovrel < need_ov // 3):
+        raise InfraError("vacuity guard: only %d rounds with start count 1 and >= 2 overlapping acquisitions (need %d), %d with overlapping "
+                         "last releases (need %d); machine too loaded?" % (ov, need_ov, ovrel, need_ov // 3))
+    chk.cov["acquisition_rounds"] = {"series": len(acfgs), "rounds": nrounds, "count1_overlapping": ov, "last_release_overlapping": ovrel}
     chk.add_sample({"kind": "acquisition-rounds", "config": acfgs[0], "events": aexecs[0]})
     exe_t = build.build("drv_refcount_conc", backend="Debug", san="thread", driver_dir="refcount")
     tcfgs = cfgs[:6] + cfgs[-(10 if quick else 60):]
@@ -910,7 +996,7 @@ def run(chk, replay=None):
     validate_bursts(chk, execs_t, tcfgs, "c08-burst-tsan", "thread", stderr_t)
     tacfgs = acquire_configs(rnd, quick, tsan=True)
     aexecs_t, astderr_t, wall = run_bursts(chk, exe_t, tacfgs, "c08-acquire-tsan", "thread")
-    ov_t, nrounds_t = acquire_guard(chk, aexecs_t, 0)
+    ov_t, nrounds_t, _ = acquire_guard(chk, aexecs_t, 0)
     chk.log("concurrent acquisition rounds under TSan: %d rounds, %d with count 1 and overlapping acquisitions, %.1fs" % (nrounds_t, ov_t, wall))
     validate_bursts(chk, aexecs_t, tacfgs, "c08-acquire-tsan", "thread", astderr_t)
     chk.cov["acquisition_rounds"]["tsan_rounds"] = nrounds_t
@@ -929,7 +1015,16 @@ def do_replay(chk, path):
     kind = rep["kind"]
     if kind == "history":
         exe = build.build("drv_refcount", san="" if (rep.get("meta") or {}).get("quarantine") else "address,undefined")
-        replay_parallel(chk, exe, [rep["history"]], "replay", rep["sig_prefix"], isolate=1, meta=rep.get("meta"), replay_info=rep.get("info"))
+        if (rep.get("meta") or {}).get("long"):      # the staircase through 2^31 / 2^32: minutes of refInc() calls
+            h = rep["history"]
+            res, rc, stderr, wall = adt.run_driver(exe, [h], "replay-long", isolate=1, meta=rep.get("meta"), timeout=2400,
+                                                   extra_args=["--timeout-ms", "2000000"])
+            for mm in adt.compare([h], res, rc, stderr):
+                chk.violation(sig_of(rep["sig_prefix"], mm), "%s: step %d %s: %s expected %s observed %s" % (
+                    rep["sig_prefix"], mm["step"], mm.get("action"), mm["field"], json.dumps(mm.get("expected"))[:200],
+                    json.dumps(mm.get("observed"))[:200]), rep)
+        else:
+            replay_parallel(chk, exe, [rep["history"]], "replay", rep["sig_prefix"], isolate=1, meta=rep.get("meta"), replay_info=rep.get("info"))
     elif kind == "trace":
         exe = build.build("drv_refcount", san="" if (rep.get("meta") or {}).get("quarantine") else "address,undefined")
         record_validate(chk, exe, [rep["actions"]], "replay", rep["sig_prefix"], isolate=1, meta=rep.get("meta"))
